@@ -256,7 +256,9 @@ func c36(r *core.Run) {
 func poolReleaseDiscipline(r *core.Run, rule string) {
 	w := r.W
 	// R2 release discipline
-	isPut := func(o *types.Func) bool { return o != nil && o.Name() == "Put" && o.Pkg() != nil && o.Pkg().Path() == "sync" }
+	isPut := func(o *types.Func) bool {
+		return o != nil && o.Name() == "Put" && o.Pkg() != nil && o.Pkg().Path() == "sync"
+	}
 	for _, f := range [][3]string{{"bbq/vm", "", "releaseReferenceSet"}, {"encoding/ccf", "", "putBuffer"}} {
 		fn := mustFn(r, rule, f[0], f[1], f[2])
 		if fn == nil {
@@ -296,7 +298,7 @@ func poolReleaseDiscipline(r *core.Run, rule string) {
 		return false
 	}
 	reviewedDirect := map[string]string{
-		"sema.(Checker).Check": "the checker's own resource set is released at the end of checking and the field is set to nil in the next statement",
+		"sema.(Checker).Check":                                 "the checker's own resource set is released at the end of checking and the field is set to nil in the next statement",
 		"bbq/vm.(Context).ClearReferencedResourceKindedValues": "the set is removed from the tracking map in the next statement",
 	}
 	n := 0
